@@ -36,6 +36,7 @@ def run(ctx):
     fail_family(ctx, prog, A)
     bailout_rules(ctx, prog, A)
     final_close(ctx, prog, A)
+    main_waits_in_halt(ctx, prog, A)
     # a failing sub-thread reports through SIGUSR1: it must be deliverable to the main thread
     c16.signal_window(ctx, prog, A)
 
@@ -318,6 +319,34 @@ def bailout_rules(ctx, prog, A):
     sw = [vd[3]]
     ctx.ob('C21.bailout', 'the main thread turns SIGUSR1 into bailout()', h.loc(sw[0]), SIGUSR1 in cases and
            must_reach_call(h, cases[SIGUSR1], {'bailout'}), '')
+
+
+def main_waits_in_halt(ctx, prog, A):
+    """While sub-threads run, the main thread sits in halt(): that is the only place where the SIGUSR1 of a failing
+    sub-thread (and SIGPIPE/SIGXFSZ promoted by it) is received.  Every function of process.c that starts threads
+    and joins them again must call halt() in between, on every path."""
+    m = prog.module('process')
+    n = 0
+    for f in m.funcs.values():
+        starts = [c for c in f.calls() if c.extra.get('callee') in ('xcreate', 'init_io')]
+        joins = [c for c in f.calls() if c.extra.get('callee') in ('xjoin', 'pthread_join', 'uninit_io')]
+        root = A.model.root_of(f) if hasattr(A.model, 'root_of') else None
+        if not starts or not joins or f.name in ('init_io', 'uninit_io', 'primary_thread'):
+            continue            # primary_thread is itself a sub-thread: the main thread is already in halt()
+        n += 1
+        hs = list(f.calls('halt'))
+        dom = cfg.dominators(f)
+        ok = bool(hs) and all(any(cfg.insn_dominates(f, s_, h, dom) for h in hs) for s_ in starts) and \
+            all(any(cfg.insn_dominates(f, h, j, dom) for h in hs) for j in joins)
+        ctx.ob('C21.halt', '%s(): the main thread waits in halt() between starting its sub-threads and joining them' %
+               f.name, f.loc(), ok, 'starts at %s, halt at %s, joins at %s' % ([c.line for c in starts], [c.line for c in hs],
+                                                                              [c.line for c in joins]))
+    ctx.floor('functions that start and join threads from the main thread', n, 2)
+    # and the success path ends that wait deliberately: SIGUSR2 is raised by the sub-thread side only
+    ct = prog.func('process', 'copy_terminate')
+    xr = list(ct.calls('xraise'))
+    ctx.ob('C21.halt', 'copy mode ends the main thread\'s wait by raising SIGUSR2 from copy_terminate()', ct.loc(),
+           len(xr) == 1, '')
 
 
 def final_close(ctx, prog, A):
